@@ -17,7 +17,9 @@ VARIABLES l, bad, drift
 Shape(e) == e.kind = "names"
 Checks(e) ==
   { <<"generator-terminates-normally", ~e.crashed>>,
-    <<"accepted-programs-build", e.accepted => e.built>>,
+    <<"accepted-programs-build", e.accepted => (e.built \/ e.shadow)>>,
+    \* known finding: an included file named like a local variable of the generator's templates (v, err, key, ...)
+    <<"KNOWN-CLASS-import-alias-meets-a-template-local", (e.accepted /\ e.shadow) => e.built>>,
     <<"rejections-carry-an-error", ~e.accepted => e.gen_out # "">>,
     <<"non-clashing-valid-programs-are-accepted",
         IF Shape(e) THEN (Safe(e.defs) /\ IDLValid(e.defs)) => e.accepted ELSE (e.expect = "accept" => e.accepted)>> }
